@@ -301,5 +301,5 @@ def B8_history_tables(ctx):
         for bl in b['blocks']:
             t = bl['term']
             if not bl['cleanup'] and t['k'] == 'call' and norm_callee(t['callee']).endswith('RwLock::write'):
-                w.add(b['fn'].split('::')[-1])
+                w |= ctx.facts.owners(b['fn'])
     ctx.ob('B8', 'beneficiary::history', 'who-writes-history-entries', w == {'record', 'invalidate'}, f'{sorted(w)}')
